@@ -25,6 +25,7 @@ type c14Case struct {
 	CSR    bool   `json:"csr,omitempty"`  // CSR variant: the leaf holds a request made from KeyFix
 	Seq    []int  `json:"seq"`            // trigger sequence
 	Deco   int    `json:"deco,omitempty"` // how the hand-made file is decorated around the PEM block (c14Decos)
+	Place  int    `json:"place,omitempty"` // 0 flat directory, alias = file stem; 1 configs in sub-directories with explicit aliases that differ from their file stems
 }
 
 var c14Triggers = []string{"edit-subject", "touch+outdated", "generate-all", "strip-certificate", "expire", "renew+expired-flag", "regenerate-issuer", "keyalg-to-rsa", "keyalg-to-ec", "strip-hash"}
@@ -75,6 +76,15 @@ func c14Enumerate(tier string, yield func(any)) {
 			}
 			cc := c
 			cc.Seq = s
+			yield(&cc)
+		}
+		// the same entity kept in a sub-directory under an explicit alias that differs from its file stem
+		for _, s := range seqs {
+			if len(s) > 1 {
+				continue
+			}
+			cc := c
+			cc.Seq, cc.Place = s, 1
 			yield(&cc)
 		}
 		// files assembled by hand or exported by other tools carry text around the blocks
@@ -193,19 +203,26 @@ func c14Exec(x *engine.Ctx, cc any) {
 		reqSPKI = refx509.SPKIFor(key)
 		target = leaf
 	}
+	if c.Place == 1 {
+		mid.Path, mid.Alias = "ca/intermediate-config.yaml", "mid"
+		leaf.Path, leaf.Alias = "ca/ee/end.entity.yaml", "leaf"
+	}
 	d := &Dir{Certs: []*refcfg.CertCfg{root, mid, leaf}}
 	w := simfs.New(simfs.TickPerWrite)
 	d.Render(w)
 	w.Put("root.pem", FixtureKeyPEM("P-256-0"))
 	if c.CSR {
-		w.Put("leaf.pem", c14Decorate(reqPEM, c.Deco))
+		w.Put(ArtifactPath(leaf.Path), c14Decorate(reqPEM, c.Deco))
 	} else {
-		w.Put("mid.pem", c14Decorate(keyPEM, c.Deco))
+		w.Put(ArtifactPath(mid.Path), c14Decorate(keyPEM, c.Deco))
 	}
-	desc := fmt.Sprintf("origin=%s key=%s layout=%d csr=%v file=%s", c.Origin, c.KeyFix, c.Layout, c.CSR, c14Decos[c.Deco])
+	desc := fmt.Sprintf("origin=%s key=%s layout=%d csr=%v file=%s place=%d", c.Origin, c.KeyFix, c.Layout, c.CSR, c14Decos[c.Deco], c.Place)
 	feat := fmt.Sprintf("origin=%s family=%s", c.Origin, map[bool]string{true: "RSA", false: curveFamily(key.Describe())}[key.RSA != nil])
 	if c.Deco > 0 {
 		feat += " file=" + c14Decos[c.Deco]
+	}
+	if c.Place > 0 {
+		feat += " explicit-alias-in-subdirectory"
 	}
 	if c.Origin == "hand" && c.Layout < len(c14Layouts) {
 		l := c14Layouts[c.Layout]
@@ -346,7 +363,7 @@ func init() {
 	register(&engine.Check{
 		ID:          "C14",
 		Level:       "model_checking",
-		Rule:        "chain root -> mid -> leaf where mid owns a pre-existing key (so children exist). Key origins: each of the 14 algorithms written by gopki's own PKCS#8 writer, standard-library PKCS#8 for RSA 1024/2048/4096 and the NIST curves, reference-built PKCS#8 for all 10 curves in 6 layouts (curve OID outer only, outer + public key, inner only, inner + public key, both + public key, outer + compressed public key), PKCS#8 for all 10 curves whose scalar is written without its one or two leading zero octets; CSR variant: the leaf holds only a request made from 8 key types. Each origin also with the file decorated the way hand-assembled or exported files are (trailing blank line, trailing remark, leading Bag-Attributes text, CRLF line ends, blank lines around) followed by no trigger, edit-subject or generate-all. From each, every trigger sequence of length <=2 for 15 representative origins and <=1 for the others (quick) / <=3 for every origin (thorough) over {edit subject, touch + generate-outdated, generate-all, strip certificate block, expire (dates in the past), renew + generate-expired, regenerate issuer, change keyAlgorithm to RSA, to another curve, strip hash line}. After every run: stored key is the same key, certificate SPKI is its public key, mid verifies under root and leaf under mid with byte-equal issuer DN; CSR variant: SPKI bytes = request SPKI, request block byte-identical, no PRIVATE KEY block. states = (origin, trigger prefix), transitions = runs",
+		Rule:        "chain root -> mid -> leaf where mid owns a pre-existing key (so children exist), in a flat directory with file-derived aliases and (trigger sequences of length <=1) in sub-directories with explicit aliases that differ from the file stems. Key origins: each of the 14 algorithms written by gopki's own PKCS#8 writer, standard-library PKCS#8 for RSA 1024/2048/4096 and the NIST curves, reference-built PKCS#8 for all 10 curves in 6 layouts (curve OID outer only, outer + public key, inner only, inner + public key, both + public key, outer + compressed public key), PKCS#8 for all 10 curves whose scalar is written without its one or two leading zero octets; CSR variant: the leaf holds only a request made from 8 key types. Each origin also with the file decorated the way hand-assembled or exported files are (trailing blank line, trailing remark, leading Bag-Attributes text, CRLF line ends, blank lines around) followed by no trigger, edit-subject or generate-all. From each, every trigger sequence of length <=2 for 15 representative origins and <=1 for the others (quick) / <=3 for every origin (thorough) over {edit subject, touch + generate-outdated, generate-all, strip certificate block, expire (dates in the past), renew + generate-expired, regenerate issuer, change keyAlgorithm to RSA, to another curve, strip hash line}. After every run: stored key is the same key, certificate SPKI is its public key, mid verifies under root and leaf under mid with byte-equal issuer DN; CSR variant: SPKI bytes = request SPKI, request block byte-identical, no PRIVATE KEY block. states = (origin, trigger prefix), transitions = runs",
 		Bound:       map[string]string{"trigger sequence": "quick<=2 thorough<=3"},
 		Assumptions: []string{"key identity is compared on the private scalar / (N, D)"},
 		Budget:      budgets(quickBudget, thoroughBudget),
